@@ -19,6 +19,17 @@ transitions that return the SAME state.  The count is a `Nat` (the code's 62-bit
 overflow with fewer than 2^62 concurrent writers); atomics are sequentially consistent (Go memory
 model for `sync/atomic`).
 
+Two write paths, ONE protocol.  A writer thread is a call of `writeToContext` (the `net.Addr` path:
+`writeTo`, `udpMuxedConn.WriteTo`) OR of `writeToUDPAddrPort` (the `netip.AddrPort` path taken by
+`udpMuxedConn.WriteToAddrPort` when `params.UDPConn` is AddrPort-capable, i.e. a `*net.UDPConn` or any
+value implementing `AddrPortReaderWriter`, `addr.go asAddrPortReaderWriter`).  Both are
+`startWriteContext; defer finishWrite; <socket write>`; the AddrPort path always runs with
+`context.Background()`, so of the environment choices below `startCtxErr`, `writeRet _ notCalled` and the
+hidden helper aborter never apply to it; everything else (W0–W4) is literally the same code.  The model
+therefore does not distinguish the paths; the harness drives both against the one model.  The socket
+write may return `ok`, a deadline error (`timeout`) or any other error (`err`); ALL of them go through
+`finishWrite`.
+
 Ghost state (not in the code): `epoch` counts the successful `blocked` CASes (an *epoch* runs from
 that CAS to the `Store(0)` of the last writer, or to the clearing after a failed arming); a writer
 waiting in `clearWriteDeadlineAfterAbort` remembers the epoch in which it decremented.
@@ -30,11 +41,11 @@ def blockedBitPos : Nat := 63
 def deadlineBitPos : Nat := 62
 def countMask : Nat := 2 ^ 62 - 1
 
-/-- Program counter of a writer (`writeToContext`, udp_mux.go:319-363). -/
+/-- Program counter of a writer (`writeToContext`, or `writeToUDPAddrPort` which has the same shape). -/
 inductive WLoc where
   /-- in `startWriteContext` (390-407), not yet counted -/
   | w0
-  /-- counted; between the successful CAS(s, s+1) and the return of `UDPConn.WriteTo` (355) — or the
+  /-- counted; between the successful CAS(s, s+1) and the return of `UDPConn.WriteTo` (355) / `addrPortConn.WriteToAddrPort` — or the
       early `ctx.Err()` return at 328-330 -/
   | w1
   /-- in `finishWrite` (409-429), before its decrement -/
@@ -71,6 +82,9 @@ inductive WRes where
   | timeout
   /-- `ctx.Err() != nil` at 328: returned without calling `WriteTo` -/
   | notCalled
+  /-- the socket write returned an error that has nothing to do with the deadline (unroutable destination,
+      `ENETUNREACH`, …): the environment may do that at any time, like `ok` -/
+  | err
   deriving DecidableEq, Repr, Hashable, Inhabited
 
 structure State where
@@ -94,7 +108,7 @@ def State.init : State :=
   { cnt := 0, dbit := false, bbit := false, rpast := false, epoch := 0, wr := [], ab := [] }
 
 inductive Action where
-  /-- a new call of `writeToContext` -/
+  /-- a new call of `writeToContext` or of `writeToUDPAddrPort` -/
   | spawnW
   /-- a new call of `abortWrite` -/
   | spawnA
@@ -285,7 +299,7 @@ socket whose deadline is in the past returns) — NOT choices of the environment
 cancellation, the socket letting a write complete, `SetWriteDeadline` failing). -/
 def Action.forced : Action → Bool
   | .spawnW | .spawnA | .startCtxErr _ => false
-  | .writeRet _ .ok | .writeRet _ .notCalled => false
+  | .writeRet _ .ok | .writeRet _ .notCalled | .writeRet _ .err => false
   | .abortSet _ false => false
   | _ => true
 
